@@ -5,7 +5,7 @@ tests pass with it, the demonstration fails with it and passes without it.
 usage: seedconfirm.py <incoming-dir> <number-offset>"""
 import glob, json, os, shutil, subprocess, sys
 ROOT = os.path.dirname(os.path.dirname(os.path.abspath(__file__)))
-WT = "/var/tmp/blsful-verif-seedwt"
+WT = os.environ.get("SEED_WT", "/var/tmp/blsful-verif-seedwt")
 inc, off = sys.argv[1], int(sys.argv[2])
 env = dict(os.environ, CARGO_TARGET_DIR=WT + "/target", CARGO_NET_OFFLINE="true")
 def sh(cmd, timeout=3000):
